@@ -17,10 +17,10 @@ from ..world import Stats, _jsonable, seam
 ID = "C14"
 LEVEL = "model_checking"
 RULE = ("(a) every algorithm variant x {Binary 1-D, RandomBinary 2-D, RandomKary(3) 1-D} x real NumPy seeds x every reward script in "
-        "{0,1}^T: the run is executed twice in-process and once in a second process started with a different PYTHONHASHSEED, a "
+        "{0,1}^T and a 40-round script with rewards computed from the point: the run is executed twice in-process and once in a second process started with a different PYTHONHASHSEED, a "
         "different random.seed and a shifted fake clock; point sequences and recommendations must be identical; in the first process two unrelated instances are run to completion beforehand, the second process starts pristine.  (b) every ordered "
         "pair of RNG-free algorithm variants (all but VROOM; incl. two instances of one class) on RNG-free partitions: ALL "
-        "interleavings of the half-steps (pull / receive_reward) of two independently constructed instances, 2 rounds each, x every "
+        "interleavings of the half-steps (pull / receive_reward) of two independently constructed instances (on differently placed boxes), 2 rounds each, x every "
         "reward assignment in {0,1}^4, plus round-granular interleavings of 3 rounds each; each instance must produce the points and "
         "the recommendation it produces alone.  (c) the domain object passed in is deep-compared before/after every execution.  "
         "distinct_nontrivial = distinct (pair, interleaving, rewards) executions whose two traces differ from each other.")
@@ -44,9 +44,12 @@ def run_real(cfg, rewards, seed, pyseed=0):
     algo, dom = configs.build(cfg)
     before = copy.deepcopy(cfg["domain"])
     pts = []
+    lo, hi = cfg["domain"][0]
     for t, r in enumerate(rewards, 1):
         x = algo.pull(t)
         pts.append(None if x is None else [float(v) for v in x])
+        if r == "peak":  # reward as a function of the normalised first coordinate
+            r = -abs((float(x[0]) - lo) / (hi - lo) - 0.3) if x is not None else 0.0
         algo.receive_reward(t, r)
     try:
         rec = algo.get_last_point()
@@ -85,14 +88,18 @@ def _repro_task(task):
         # pristine): sequential composition is the simplest interleaving of two instances
         try:
             run_real(cfg, [1.0, -1.0, 0.5, 1.0, -1.0, 0.5, 0.25, 1.0], 424242, pyseed=5)
+            # the same class on a differently placed and scaled box, long enough to build a deep tree
+            moved = dict(cfg, domain=[[10.0 * lo - 3.0, 10.0 * hi - 3.0] for lo, hi in cfg["domain"]])
+            run_real(moved, ["peak"] * 40, 414141, pyseed=7)
             other = dict(cfg, algo="HCT", params=configs.default_params("HCT")) if cfg["algo"] != "HCT" else \
                 dict(cfg, algo="T_HOO", params=configs.default_params("T_HOO"))
             run_real(other, [0.5, -1.0, 1.0, 0.25, 0.5, -1.0], 434343, pyseed=6)
-            st.bump("polluter_runs", 2)
+            st.bump("polluter_runs", 3)
         except Exception:  # noqa
             pass
+        scripts = list(itertools.product((0.0, 1.0), repeat=T)) + [("peak",) * 40]
         for seed in task["seeds"]:
-            for rew in itertools.product((0.0, 1.0), repeat=T):
+            for rew in scripts:
                 try:
                     a = run_real(cfg, rew, seed, pyseed=1)
                     b = run_real(cfg, rew, seed, pyseed=2)
@@ -136,7 +143,7 @@ def _repro_task(task):
 
 
 def _v(task, oracle, msg, seed, rew):
-    return {"config": task["cfg"], "script": [int(seed)] + [int(x) for x in rew], "oracle": oracle, "message": msg[:600], "details": {},
+    return {"config": task["cfg"], "script": [int(seed)] + [x if isinstance(x, str) else int(x) for x in rew], "oracle": oracle, "message": msg[:600], "details": {},
             "task": task, "T": len(rew)}
 
 
@@ -294,7 +301,8 @@ def tasks(tier, seed):
             plist = [parts[(i + j + seed) % 3]] if tier == "quick" else parts
             for part, K, box in plist:
                 cfgA = configs.cfg(aa, part, K, configs.BOXES[box], **pa)
-                cfgB = configs.cfg(ab, part, K, configs.BOXES[box], **pb)
+                # B lives on a differently placed / scaled box of the same dimension
+                cfgB = configs.cfg(ab, part, K, configs.BOXES["neg1" if box == "u1" else "mix2"], **pb)
                 ts.append({"kind": "inter", "label": "inter/%s+%s/%s/half" % (la, lb, part), "cfgA": cfgA, "cfgB": cfgB, "n": 2, "half": True, "cost": 3})
                 ts.append({"kind": "inter", "label": "inter/%s+%s/%s/round" % (la, lb, part), "cfgA": cfgA, "cfgB": cfgB,
                            "n": 3 if tier == "quick" else 4, "half": False, "cost": 3})
@@ -309,7 +317,7 @@ def run_task(task):
 
 def replay(task, script):
     if task["kind"] == "repro":
-        seed, rew = script[0], [float(x) for x in script[1:]]
+        seed, rew = script[0], [x if isinstance(x, str) else float(x) for x in script[1:]]
         with _SeamOff():
             a = run_real(task["cfg"], rew, seed, pyseed=1)
             b = run_real(task["cfg"], rew, seed, pyseed=2)
